@@ -29,6 +29,9 @@ from simkit.world import World, make_world
 ASE_TIME_FS = 10.1805  # one ASE time unit (Angstrom*sqrt(amu/eV)) in fs
 
 
+FRAMEWORK_Z = 79  # inert framework atoms in grand-canonical rows
+
+
 def tstat(values, exact):
     v = np.asarray(values, dtype=float)
     R = len(v)
@@ -176,6 +179,16 @@ def row_gc(rnd, dilute=False, k=None):
             numbers.append(tnum[j])
             pos.append((base + np.array(tpos[j])).tolist())
             labels.append(p)
+    # label layouts other than 0..n-1 in order: the largest label need not come last (seeded C01-5)
+    layout = rnd.choice(["plain", "plain", "reversed", "framework_after", "framework_after"])
+    if layout == "reversed":
+        labels = [n0 - 1 - x for x in labels]
+    elif layout == "framework_after":
+        # two inert atoms (gold, never exchanged or displaced: label -1) listed AFTER the gas particles
+        for _ in range(2):
+            numbers.append(FRAMEWORK_Z)
+            pos.append((np.array([g.random(), g.random(), g.random()]) @ np.array(cell)).tolist())
+            labels.append(-1)
     atoms = {"numbers": numbers, "positions": pos, "cell": cell, "pbc": True, "arrays": {}, "constraints": []}
     moves = [{"name": "x", "move": {"type": "exch", "labels": labels, "op": {"type": "Translation" if k == 1 else "TranslationRotation"},
                                     "bias": 0.5}}]
@@ -193,7 +206,8 @@ def row_gc(rnd, dilute=False, k=None):
         obs += [{"name": "cos2_theta", "exact": 1.0 / 3.0, "floor": 0.03, "ratio": ["sum_c2", "N", 1]},
                 {"name": "cos_theta", "exact": 0.0, "floor": 0.03, "ratio": ["sum_c", "N", 1], "absolute": True},
                 {"name": "cos_2phi", "exact": 0.0, "floor": 0.04, "ratio": ["sum_c2phi", "N", 1], "absolute": True}]
-    sc = {"row": "gc_ideal_gas", "proposal": ("dilute_atom" if dilute else "atom" if k == 1 else "diatomic") + ("+Ball" if len(moves) > 1 else ""),
+    sc = {"row": "gc_ideal_gas", "proposal": ("dilute_atom" if dilute else "atom" if k == 1 else "diatomic") + ("+Ball" if len(moves) > 1 else "")
+          + ("" if layout == "plain" else "/" + layout),
           "driver": "GrandCanonical", "atoms": atoms,
           "exchange": {"numbers": tnum, "positions": tpos, "cell": cell, "pbc": True, "arrays": {}},
           "calc": {"style": "minimal", "pot": {"k": 0.0}},
@@ -267,17 +281,19 @@ def run_chain(sc: dict, seed: int, nsteps: int) -> dict:
             acc["V"] = acc.get("V", 0.0) + V
             acc["V2"] = acc.get("V2", 0.0) + V * V
         elif row == "gc_ideal_gas":
-            N = len(atoms) // kk
+            gas = atoms.numbers != FRAMEWORK_Z
+            N = int(np.sum(gas)) // kk
             acc["N"] = acc.get("N", 0.0) + N
             acc["N2"] = acc.get("N2", 0.0) + N * N
             acc["P0"] = acc.get("P0", 0.0) + (1.0 if N == 0 else 0.0)
             if N:
-                f = atoms.get_scaled_positions(wrap=True)[::kk]
+                f = atoms.get_scaled_positions(wrap=True)[gas][::kk]
                 acc["sum_fx"] = acc.get("sum_fx", 0.0) + float(np.sum(f[:, 0]))
                 acc["sum_fy2"] = acc.get("sum_fy2", 0.0) + float(np.sum(f[:, 1] ** 2))
                 acc["sum_fz"] = acc.get("sum_fz", 0.0) + float(np.sum(f[:, 2]))
                 if kk == 2:
-                    b = atoms.positions[1::2] - atoms.positions[0::2]
+                    gp = atoms.positions[gas]
+                    b = gp[1::2] - gp[0::2]
                     bn = b / np.linalg.norm(b, axis=1)[:, None]
                     acc["sum_c"] = acc.get("sum_c", 0.0) + float(np.sum(bn[:, 2]))
                     acc["sum_c2"] = acc.get("sum_c2", 0.0) + float(np.sum(bn[:, 2] ** 2))
